@@ -4,6 +4,7 @@
 import RevalModel.Impl.Builder
 import RevalModel.Lemmas.Sorted
 import RevalModel.Lemmas.Resolve
+import RevalModel.Lemmas.SortedMap
 
 namespace Reval.C15
 
@@ -146,6 +147,92 @@ theorem inv_reachable (x : Xid) : ∀ (ops : List BOp) (s s' : BState), BInv x s
 theorem built_ruleset_is_well_formed (x : Xid) (ops : List BOp) (s : BState) (h : brun x BState.init ops = .ok s) :
     (s.rules.map RuleM.name).Nodup ∧ ∀ n fm, lookup s.fns n = some fm → wellFormed x n ∧ n ∉ KEYWORDS :=
   inv_reachable x ops BState.init s (inv_init x) h
+
+/-! ### each name once: the function and symbol tables stay strictly key-ordered -/
+
+/-- both tables strictly increasing in their keys (the `BTreeMap` invariant, here a consequence of the builder's steps) -/
+def BSorted (s : BState) : Prop := KeysSorted s.fns ∧ KeysSorted s.symbols
+
+theorem withRule_tables (s s' : BState) (r : RuleM) (h1 : withRule s r = .ok s') : s'.fns = s.fns ∧ s'.symbols = s.symbols := by
+  simp only [withRule] at h1
+  split at h1 <;> try (cases h1; done)
+  simp only [Except.ok.injEq] at h1
+  subst h1
+  exact ⟨rfl, rfl⟩
+
+theorem withRules_tables : ∀ (rs : List RuleM) (s s' : BState), withRules s rs = .ok s' → s'.fns = s.fns ∧ s'.symbols = s.symbols := by
+  intro rs
+  induction rs with
+  | nil => intro s s' hs; simp [withRules] at hs; subst hs; exact ⟨rfl, rfl⟩
+  | cons r rs ih =>
+    intro s s' hs
+    simp only [withRules] at hs
+    split at hs <;> try (cases hs; done)
+    rename_i s1 h1
+    have a := withRule_tables s s1 r h1
+    have b := ih s1 s' hs
+    exact ⟨b.1.trans a.1, b.2.trans a.2⟩
+
+theorem withFunction_sorted (x : Xid) (s s' : BState) (f : Str × FnModel) (h : BSorted s) (hs : withFunction x s f = .ok s') :
+    BSorted s' := by
+  simp only [withFunction, addFunction] at hs
+  split at hs <;> try (cases hs; done)
+  rename_i fns hf
+  simp only [Except.ok.injEq] at hs
+  subst hs
+  split at hf <;> try (cases hf; done)
+  split at hf <;> try (cases hf; done)
+  split at hf <;> try (cases hf; done)
+  simp only [Except.ok.injEq] at hf
+  subst hf
+  exact ⟨keysSorted_insert _ _ _ h.1, h.2⟩
+
+theorem withFunctions_sorted (x : Xid) : ∀ (fs : List (Str × FnModel)) (s s' : BState), BSorted s → withFunctions x s fs = .ok s' → BSorted s' := by
+  intro fs
+  induction fs with
+  | nil => intro s s' h hs; simp [withFunctions] at hs; subst hs; exact h
+  | cons f fs ih =>
+    intro s s' h hs
+    simp only [withFunctions] at hs
+    split at hs <;> try (cases hs; done)
+    rename_i s1 h1
+    exact ih s1 s' (withFunction_sorted x s s1 f h h1) hs
+
+theorem sorted_step (x : Xid) (s s' : BState) (op : BOp) (h : BSorted s) (hs : bstep x s op = .ok s') : BSorted s' := by
+  cases op with
+  | rule r =>
+    have := withRule_tables s s' r hs
+    unfold BSorted; rw [this.1, this.2]; exact h
+  | rules rs =>
+    have := withRules_tables rs s s' hs
+    unfold BSorted; rw [this.1, this.2]; exact h
+  | fn f => exact withFunction_sorted x s s' f h hs
+  | fns fs => exact withFunctions_sorted x fs s s' h hs
+  | sym k v => simp [bstep, withSymbol] at hs; subst hs; exact ⟨h.1, keysSorted_insert _ _ _ h.2⟩
+  | syms t => simp [bstep, withSymbols] at hs; subst hs; exact ⟨h.1, keysSorted_foldl _ _ h.2⟩
+
+theorem sorted_reachable (x : Xid) : ∀ (ops : List BOp) (s s' : BState), BSorted s → brun x s ops = .ok s' → BSorted s' := by
+  intro ops
+  induction ops with
+  | nil => intro s s' h hs; simp [brun] at hs; subst hs; exact h
+  | cons op ops ih =>
+    intro s s' h hs
+    simp only [brun] at hs
+    split at hs <;> try (cases hs; done)
+    rename_i s1 h1
+    exact ih s1 s' (sorted_step x s s1 op h h1) hs
+
+theorem keysSorted_nodup {α} (m : List (Str × α)) (h : KeysSorted m) : (m.map Prod.fst).Nodup := by
+  unfold KeysSorted at h
+  rw [List.Nodup, List.pairwise_map]
+  exact h.imp (fun {a b} hab e => by rw [e, Str.lt_irrefl] at hab; cases hab)
+
+/-- for every sequence of builder calls: the built ruleset holds every function name and every symbol name once — the tables are
+    strictly ordered by name, so no two entries share a key, whatever was added, re-registered or refused on the way -/
+theorem built_tables_hold_each_name_once (x : Xid) (ops : List BOp) (s : BState) (h : brun x BState.init ops = .ok s) :
+    (s.fns.map Prod.fst).Nodup ∧ (s.symbols.map Prod.fst).Nodup := by
+  have hs := sorted_reachable x ops BState.init s ⟨List.Pairwise.nil, List.Pairwise.nil⟩ h
+  exact ⟨keysSorted_nodup _ hs.1, keysSorted_nodup _ hs.2⟩
 
 /-- an accepted function is invocable under its own name (and it is that function that is invoked) -/
 theorem function_invocable_under_own_name (x : Xid) (s s' : BState) (f : Str × FnModel) (facts a : Value) (o : Oracle)
